@@ -61,10 +61,17 @@ def _volta(draw, inner=False):
 
 
 @st.composite
-def _nested(draw):
+def _nested(draw, depth=0):
     body = [draw(_plain(1))]
     for _ in range(draw(st.sampled_from([1, 1, 1, 2]))):
-        body.append(draw(_volta()) if draw(st.integers(0, 4)) == 0 else draw(_simple_rep()))
+        pick = draw(st.integers(0, 5))
+        if pick == 0:
+            body.append(draw(_volta()))
+        elif pick == 1 and depth == 0:
+            # (generator audit) a repeat inside a repeat inside a repeat
+            body.append(draw(_nested(depth=1)))
+        else:
+            body.append(draw(_simple_rep()))
         body.append(draw(_plain(1)))
     return {"k": "rep", "body": body}
 
@@ -72,6 +79,13 @@ def _nested(draw):
 @st.composite
 def structure(draw, kinds=("plain", "rep", "volta", "nested"), min_sections=1, max_sections=4):
     secs = []
+    if "long-chain" in kinds and draw(st.integers(0, 11)) == 0:
+        # (generator audit) more segments than letters: 14-20 one-bar repeats separated by one-bar plain sections
+        for _ in range(draw(st.integers(14, 20))):
+            secs.append({"k": "rep", "body": [{"k": "plain", "n": 1}]})
+            secs.append({"k": "plain", "n": 1})
+        return secs
+    kinds = [k for k in kinds if k != "long-chain"]
     n = draw(st.integers(min_sections, max_sections))
     for _ in range(n):
         k = draw(st.sampled_from(list(kinds)))
@@ -194,6 +208,7 @@ def part_for(draw, nbars, rich=True, crossing_at=()):
     timesigs = [[0, ts[0], ts[1]]]
     measures = []
     t = 0
+    pickup_len = None
     for b in range(nbars):
         if b > 0 and rich:
             if draw(st.integers(0, 5)) == 0:
@@ -213,6 +228,10 @@ def part_for(draw, nbars, rich=True, crossing_at=()):
                     else:
                         divs.append([t, d])
         L = int(Fraction(ts[0] * 4, ts[1]) * d)
+        if b == 0 and rich and nbars > 1 and L > 1 and draw(st.integers(0, 4)) == 0:
+            # (generator audit) the piece starts with a pickup: the first bar is shorter than its signature
+            L = draw(st.integers(1, L - 1))
+            pickup_len = L
         measures.append([t, t + L, b + 1, str(b + 1)])
         t += L
     dd = []
@@ -297,19 +316,62 @@ def part_for(draw, nbars, rich=True, crossing_at=()):
                     x["grace_next"] = y["id"]
                 for g in chain:
                     notes.insert(notes.index(main), g)
+    # ---- generator audit: what else a real part holds ---------------------------------------------------
+    keysigs, clefs, tempos, spans = [], [], [], []
+    if rich:
+        starts = [m[0] for m in measures]
+        linked = set()
+        for n_ in notes:
+            for key in ("tie_next", "tie_prev", "grace_next"):
+                if n_.get(key):
+                    linked.add(n_["id"])
+                    linked.add(n_[key])
+        for x in slurs + [tp[:2] for tp in tuplets]:
+            linked.update(x)
+        # notes that state no voice / no staff, unpitched notes (attributes must be copied as they are)
+        if draw(st.integers(0, 3)) == 0:
+            for n_ in notes:
+                if draw(st.integers(0, 3)) == 0:
+                    n_["staff"] = None
+                if n_["kind"] == "note" and n_["id"] not in linked and draw(st.integers(0, 4)) == 0:
+                    n_["kind"] = "unpitched"
+                    del n_["alter"]
+        # signatures, clefs and tempo marks on bar lines; directions, pedals, pages and systems that span bar lines
+        # (also segment boundaries): none of them is judged itself, the unfolded part must stay consistent
+        if draw(st.integers(0, 1)) == 0:
+            for _ in range(draw(st.integers(0, 2))):
+                tk = draw(st.sampled_from(starts))
+                if all(k[0] != tk for k in keysigs):
+                    keysigs.append([tk, draw(st.integers(-4, 4)), draw(st.sampled_from(["major", "minor", None]))])
+            for _ in range(draw(st.integers(0, 2))):
+                tk = draw(st.sampled_from(starts))
+                if all(c[0] != tk for c in clefs):
+                    clefs.append([tk, 1] + list(draw(st.sampled_from([["G", 2, 0], ["F", 4, 0], ["G", 2, -1]]))))
+            if draw(st.integers(0, 2)) == 0:
+                tempos.append([draw(st.sampled_from(starts)), draw(st.sampled_from([60, 96, 120])), "q"])
+            for _ in range(draw(st.integers(0, 2))):
+                i = draw(st.integers(0, nbars - 1))
+                j = draw(st.integers(i, nbars - 1))
+                spans.append([draw(st.sampled_from(["wedge", "pedal", "dashes"])), measures[i][0], measures[j][1]])
+            if draw(st.integers(0, 2)) == 0:
+                spans.append(["page-and-system", 0, end])
+        keysigs.sort()
+        clefs.sort()
     return {
         "id": "P1",
         "name": draw(st.sampled_from([None, "Piano"])),
         "divs": divs,
         "measures": measures,
         "timesigs": timesigs,
-        "keysigs": [],
-        "clefs": [],
+        "keysigs": keysigs,
+        "clefs": clefs,
+        "tempos": tempos,
+        "spans": spans,
         "notes": notes,
         "tuplets": tuplets,
         "slurs": slurs,
         "end": end,
-        "pickup": None,
+        "pickup": pickup_len,
     }
 
 
@@ -320,7 +382,7 @@ def part_for(draw, nbars, rich=True, crossing_at=()):
 # --------------------------------------------------------------------------
 _VOLTA_FACTOR = {"1|2": 2, "1,2|3": 9, "1|2|3": 4, "1|2,3": 8, "1,2,3|4": 82}
 MAX_PATHS = 1500
-DOWNGRADE = {"all_iter": "maximal", "all_variants": "minimal", "paths_all": "paths_max"}
+DOWNGRADE = {"all_iter": "maximal", "all_variants": "minimal", "paths_all": "paths_max", "alignment": "maximal"}
 
 
 def _est(sections):
@@ -363,6 +425,11 @@ def case(draw, kinds=("plain", "rep", "volta", "nested"), marks_modes=("none",),
     if rich and cross:
         part = draw(_add_crossing_ties(part, cross))
     policy = draw(st.sampled_from(list(policies)))
+    if lay["n"] > 24 and policy in DOWNGRADE:
+        policy = DOWNGRADE[policy]  # the long chain has 2^14 and more variants
+    if policy == "alignment" and estimate_paths(stc, marks) > 40:
+        # unfold_part_alignment builds the part of every variant before it chooses one
+        policy = "maximal"
     if policy in DOWNGRADE and estimate_paths(stc, marks) > MAX_PATHS:
         # enumerating all variants is exponential in the number of choice points: keep such structures
         # for the single-path policies
@@ -376,6 +443,11 @@ def case(draw, kinds=("plain", "rep", "volta", "nested"), marks_modes=("none",),
         "update_ids": draw(st.booleans()),
         "ignore_leaps": draw(st.booleans()),
         "as_score": draw(st.integers(0, 5)) == 0,
+        # ---- generator audit
+        # a Score argument with two parts (the same material built twice)
+        "score_parts": draw(st.sampled_from([1, 2])),
+        # single ending numbers as int (the documented type of Ending.number) instead of str (what the importers pass)
+        "ending_ints": draw(st.integers(0, 7)) == 0,
     }
 
 
@@ -410,9 +482,9 @@ def barline_times(part_spec):
     return [m[0] for m in ms] + [ms[-1][1]]
 
 
-def build_case_part(spec):
+def build_case_part(spec, pid=None):
     """Fresh Part for the case: notes through the shared builder, then brackets and marks."""
-    part, objs = build_part(spec["part"])
+    part, objs = build_part(dict(spec["part"], id=pid) if pid else spec["part"])
     if spec["part"].get("abbr"):
         part.part_abbreviation = spec["part"]["abbr"]
     lay = R.layout(spec["structure"])
@@ -420,7 +492,19 @@ def build_case_part(spec):
     for s, e in lay["repeats"]:
         part.add(S.Repeat(), bt[s], bt[e])
     for num, s, e in lay["endings"]:
+        if spec.get("ending_ints") and str(num).isdigit():
+            num = int(num)
         part.add(S.Ending(num), bt[s], bt[e])
     for cls, k in spec["marks"]:
         part.add(getattr(S, cls)(), bt[int(k)])
+    for kind, t0, t1 in spec["part"].get("spans", []):
+        if kind == "wedge":
+            part.add(S.IncreasingLoudnessDirection("crescendo", wedge=True), t0, t1)
+        elif kind == "pedal":
+            part.add(S.SustainPedalDirection(), t0, t1)
+        elif kind == "dashes":
+            part.add(S.DecreasingTempoDirection("ritardando", "rit."), t0, t1)
+        else:
+            part.add(S.Page(1), t0, t1)
+            part.add(S.System(1), t0, t1)
     return part, objs
